@@ -40,9 +40,13 @@ def symbol_classes(prog):
 
 
 def run(rep, prog, tier):
+    from .hidden import no_hidden_state
+    rep.rule('R15.state', 'no hidden state in the anchored modules: no function writes a module-level object, no caching decorator / cached property')
+    no_hidden_state(rep, 'R15.state', prog, ['SimpleCircuit/dump_load.py', 'dump_load.py', 'Circuit/dump_load.py', 'SimpleSimulation/schematic.py'])
     rep.rule('R15.types', 'every key K of simple_circuit_element_types constructs the symbol class whose `type` string is K; every persistable class is a key')
     rep.rule('R15.values', 'for each persistable class the required constructor parameters are covered by {name, reverse} plus the value keys of the component kind its translator produces (after the complex-combination renaming)')
     rep.rule('R15.roundtrip', 'the saved component values are fed back into the symbol constructor on reload: translating the rebuilt symbol reproduces every fed-back value for every combination of the saved flags (reverse, deg, sin)')
+    rep.rule('R15.pure', 'the declarative front end does not edit the description dictionaries it is given (only the drawing it builds)')
     rep.rule('R15.fields', 'the fields written by dictify_element are exactly the fields restored by undictify_element; schemdraw (de)serialiser type names agree')
     rep.rule('R15.handlers', 'declarative element_handlers map each type name to its symbol class; direction literal = method called; place_after positions at origin.end')
     rep.assume('NOT DECIDED: equality of the reloaded drawing and of its solution; repeated cycles')
@@ -92,6 +96,18 @@ def run(rep, prog, tier):
         keys = {k for k, _, _ in table}
         rep.ob('R15.types', f'class:{cname}', typ in keys, f"type '{typ}' " + ('has a loader entry' if typ in keys else 'has NO loader entry: reloaded as a bare Element without values'), prog.site(em, classes[cname][0]))
     roundtrip(rep, prog, classes, table)
+    from .c20 import effects_of
+    eff = effects_of(prog)
+    for q, f in sorted(prog.funcs.items()):
+        if not q.startswith('SimpleSimulation.schematic::') or f.parent is not None or f.cls is not None: continue
+        sm = eff.summ[q]
+        muts = {p_: s_ for p_, s_ in sm.mut.items() if p_ not in ('schematic', 'element', 'se') or q.endswith('::fill') and p_ == 'elements'}
+        muts = {p_: s_ for p_, s_ in muts.items() if not (p_ == 'element' and q.endswith(('apply_direction_and_length', 'apply_position')))}
+        if muts:
+            p_, s_ = sorted(muts.items())[0]
+            rep.ob('R15.pure', f'{q}({p_})', False, f'the declarative description is edited while it is read (`{p_}`): {s_} -- a second use of the same description builds another drawing', f.site)
+        else:
+            rep.ob('R15.pure', q, True, 'does not write to the description it is given', f.site)
     fields(rep, prog)
     handlers(rep, prog, classes)
 
